@@ -70,9 +70,13 @@ for d in sorted(os.listdir(os.path.join(ROOT, "seeded"))):
             comp = subprocess.run(["/venv/bin/python", "-m", "compileall", "-q", os.path.join(wt, "more_executors")], capture_output=True, text=True)
             meta["compiles"] = comp.returncode == 0
             if suite:
-                r = subprocess.run(["/venv/bin/python", "-m", "pytest", "-q", "-p", "no:cacheprovider", "--timeout=150", "--deselect", "tests/types/test_typehints.py"],
-                                   cwd=wt, capture_output=True, text=True, timeout=3000)
-                last = (r.stdout.strip().splitlines() or ["?"])[-1]
+                try:
+                    r = subprocess.run(["/venv/bin/python", "-m", "pytest", "-q", "-p", "no:cacheprovider", "--timeout=150", "-x", "--deselect", "tests/types/test_typehints.py"],
+                                       cwd=wt, capture_output=True, text=True, timeout=1500)
+                    last = (r.stdout.strip().splitlines() or ["?"])[-1]
+                except subprocess.TimeoutExpired:
+                    last = "suite did not finish within 25 min on this (busy) machine: tests hang or crawl with this change"
+
                 meta["existing_tests_on_changed_tree"] = last
                 meta["existing_tests_pass"] = bool(re.search(r"\b1723 passed", last)) and "failed" not in last
                 ran.append("pytest -q -p no:cacheprovider --timeout=150 (tests/types/test_typehints.py deselected: needs mypy, fails on the unchanged tree too) on the changed tree: %s" % last)
